@@ -101,7 +101,8 @@ Qed.
 (* the instance of the primitive operations: vm.rs Add/Subtract/ConvertTo/Multiply/Divide/
    Power on the dimensions of the operand units, as Dim/Run.v rt_binop reads them *)
 Definition dops : ops dq :=
-  {| q_neg := fun x => (fst x, option_map Qcopp (snd x));
+  {| q_unit := fun _ => (DM.dscalar, None);
+     q_neg := fun x => (fst x, option_map Qcopp (snd x));
      q_fact := fun _ _ => Wrong;
      q_arith := fun op x y =>
        match DR.rt_binop (ub op) (fst x) (fst y) (snd y) with
@@ -250,7 +251,7 @@ Proof.
       destruct (eval_T e Hai (r_world rst) g d HR Er n ltac:(simpl in Hd; lia)) as (c & Ev & _).
       pose (W := r_world rst).
       set (rst1 := {| r_world := {| w_globals := w_globals W ++ [(x, VQ (d, c))]; w_fns := w_fns W;
-                                    w_foreign := w_foreign W; w_structs := w_structs W; w_last := w_last W |};
+                                    w_foreign := w_foreign W; w_structs := w_structs W; w_last := w_last W; w_units := w_units W |};
                       r_out := r_out rst; r_res := r_res rst |}).
       assert (HR1 : repr (r_world rst1) (DP.upd g x d)).
       { refine (conj Hf (conj Hfo _)). intro y. unfold DP.upd, lookupW, rst1, W. simpl.
@@ -269,7 +270,7 @@ Proof.
       destruct (eval_T e Hai (r_world rst) g d HR Er n ltac:(simpl in Hd; lia)) as (c & Ev & _).
       pose (W := r_world rst).
       set (rst1 := {| r_world := {| w_globals := w_globals W; w_fns := w_fns W; w_foreign := w_foreign W;
-                                    w_structs := w_structs W; w_last := Some (VQ (d, c)) |};
+                                    w_structs := w_structs W; w_last := Some (VQ (d, c)); w_units := w_units W |};
                       r_out := r_out rst; r_res := Some (VQ (d, c)) |}).
       assert (HR1 : repr (r_world rst1) (DP.upd (DP.upd g "ans" d) "_" d)).
       { refine (conj Hf (conj Hfo _)). intro y. unfold DP.upd, lookupW, rst1, W. simpl.
@@ -293,7 +294,7 @@ Definition prelude (G0 : list (string * DM.dtype)) : program dq :=
 
 Definition world0 (G0 : list (string * DM.dtype)) : @world dq :=
   {| w_globals := map (fun xd => (fst xd, VQ (snd xd, None))) G0; w_fns := []; w_foreign := [];
-     w_structs := []; w_last := None |}.
+     w_structs := []; w_last := None; w_units := [] |}.
 
 (* the run-time environment of Dim/Run.v that G0 denotes: the LATEST binding of a name *)
 Definition g_of (G0 : list (string * DM.dtype)) : string -> option DM.dtype := lookupW (world0 G0).
@@ -307,10 +308,10 @@ Proof. reflexivity. Qed.
 
 Lemma exec_prelude : forall G0 pre out res n, 0 < n ->
   exec_stmts dops lits n (prelude G0)
-    {| r_world := {| w_globals := pre; w_fns := []; w_foreign := []; w_structs := []; w_last := None |};
+    {| r_world := {| w_globals := pre; w_fns := []; w_foreign := []; w_structs := []; w_last := None; w_units := [] |};
        r_out := out; r_res := res |}
   = Ok {| r_world := {| w_globals := pre ++ map (fun xd => (fst xd, VQ (snd xd, None))) G0;
-                        w_fns := []; w_foreign := []; w_structs := []; w_last := None |};
+                        w_fns := []; w_foreign := []; w_structs := []; w_last := None; w_units := [] |};
           r_out := out; r_res := res |}.
 Proof.
   induction G0 as [|[x d] G0 IH]; intros pre out res n Hn.
@@ -319,10 +320,10 @@ Proof.
     change (prelude ((x, d) :: G0)) with (SLet x (EScalar (d, @None Qc)) :: prelude G0).
     rewrite exec_stmts_cons.
     assert (E : exec_stmt dops lits (S n) (SLet x (EScalar (d, @None Qc)))
-                  {| r_world := {| w_globals := pre; w_fns := []; w_foreign := []; w_structs := []; w_last := None |};
+                  {| r_world := {| w_globals := pre; w_fns := []; w_foreign := []; w_structs := []; w_last := None; w_units := [] |};
                      r_out := out; r_res := res |}
                 = Ok {| r_world := {| w_globals := pre ++ [(x, VQ (d, None))]; w_fns := []; w_foreign := [];
-                                      w_structs := []; w_last := None |}; r_out := out; r_res := res |})
+                                      w_structs := []; w_last := None; w_units := [] |}; r_out := out; r_res := res |})
       by reflexivity.
     rewrite E. cbn [bind]. rewrite (IH (pre ++ [(x, VQ (d, None))]) out res (S n) ltac:(lia)).
     rewrite <- app_assoc. reflexivity.
@@ -385,8 +386,8 @@ Proof.
       + intro x. split; reflexivity.
       + destruct (cstmts_pre P (cinit (procs dops))) as (_ & _ & _ & [r E] & _). exists r. exact E.
       + intro x. reflexivity.
-      + destruct (cstmts_pre P (cinit (procs dops))) as (_ & _ & _ & _ & [r E]). exists r. exact E.
-      + exists []. reflexivity.
+      + destruct (cstmts_pre P (cinit (procs dops))) as (_ & _ & _ & _ & [r E] & _). exists r. exact E.
+      + split; [exists []; reflexivity | intros x i Hx; discriminate].
     - intros i name fd Hi. destruct i; discriminate. }
   destruct (stmts_run dops lits fin Hok n P _ _ _ _ HI eq_refl Hrun) as (k & ms & S & HI').
   destruct HI' as (_ & _ & _ & _ & _ & _ & Ems).
